@@ -1,22 +1,13 @@
 """C15 infer edits only the placeholder account
 (lib/syntax/bayes/bayes.go, cmd/commands/infer.go, lib/syntax/printer/printer.go)"""
-import os
-
 PID = "C15"
 THEOREM_FILE = "Properties/C15.v"
 NEEDS_KNUT = True
 
-_REPO = os.environ.get("VERIF_REPO", "/repo")
-
-
-def _variant():
-    """which behaviour the model follows: the code as found ('orig') or the repaired code of
-    findings/C15-infer.patch ('fixed'), recognised by its sorted candidate loop"""
-    try:
-        src = open(os.path.join(_REPO, "lib", "syntax", "bayes", "bayes.go")).read()
-    except OSError:
-        return "orig"
-    return "fixed" if "sort.Strings(" in src else "orig"
+# The model follows the repaired code (/repo e8bd689, finding F10): variant Fixed of Model/Bayes.v.
+# Against a tree without that commit the check reports the violations (output-does-not-parse,
+# nondeterministic, infer_ok_b, model disagreement) -- as it did when it found them.
+VARIANT = "fixed"
 
 
 RULE = ("training/target journal pairs: training empty, without transactions, unparseable, with 1-6 transactions over a pool "
@@ -27,13 +18,17 @@ RULE = ("training/target journal pairs: training empty, without transactions, un
         "is re-parsed with the Go parser.  Model: the implementation's choices are handed to the model as the choice "
         "function, the bytes must be equal and every choice must be one of the model's candidates.  Spec on the Go "
         "output: infer_ok_b (only placeholder sides differ; each is a training account different from the other side of "
-        "its booking, or unchanged if there is none), gaps equal, output parses, the 10 runs agree.  Non-trivial: the "
+        "its booking, or unchanged if there is none), gaps equal, output parses, the 10 runs agree, and every choice of "
+        "the binary is the choice of the model of the choice (Model/BayesScore.v, extracted, run with IEEE doubles and a "
+        "transcription of Go's math.Log for amd64: first maximum of the scores over the sorted candidates).  Non-trivial: the "
         "target has at least one placeholder occurrence; distinct by input.")
 TRUSTED_BASE = [
     "Coq 8.16.1 kernel",
     "extraction + OCaml drivers drv_c07/c08/c15.ml (hex, reading the Go tree back, reading the choices off the output)",
     "harness c15.go (generator, subprocess runner, 10 runs), c07.go/c08.go (Go parser, tree rendering)",
-    "the score (math.Log, floating point) is not modelled: which candidate wins is taken from the implementation",
+    "float64 arithmetic is abstract in the Coq model of the choice; for the comparison of the binary's choices with it the driver "
+    "drv_c15.ml instantiates it with OCaml doubles, a hand transcription of Go's math.Log (log_amd64.s) and of strings.Fields / "
+    "strings.ToLower for ASCII and Latin-1 (all the generator uses)",
     "training files are read without includes in generated cases",
 ]
 ASSUMPTIONS = ["-i (in place) is not exercised: the written bytes are the same FormatFile output (C08/C18)",
@@ -41,14 +36,13 @@ ASSUMPTIONS = ["-i (in place) is not exercised: the written bytes are the same F
 
 
 def plan(tier, seed):
-    v = _variant()
     if tier == "quick":
-        return [("C15", seed, 400, [v])]
-    return [("C15", seed + k, 4000, [v]) for k in range(4)]
+        return [("C15", seed, 400, [VARIANT])]
+    return [("C15", seed + k, 4000, [VARIANT]) for k in range(4)]
 
 
 def search_plan(seed):
-    return [("C15", seed + 1000, 1500, [_variant()])]
+    return [("C15", seed + 1000, 1500, [VARIANT])]
 
 
 def compare(c):
@@ -65,7 +59,7 @@ def nontrivial(c):
 
 
 def distribution(cases):
-    d = {"ok": 0, "err": 0, "other": 0, "nondet": 0, "output_unparseable": 0, "variant": _variant(),
+    d = {"ok": 0, "err": 0, "other": 0, "nondet": 0, "output_unparseable": 0, "variant": VARIANT,
          "custom_placeholder": 0, "training_empty": 0, "training_is_target": 0, "placeholder_occurrences": 0, "spec": {}}
     for c in cases:
         f = c.input.split(" ")
@@ -92,14 +86,31 @@ def distribution(cases):
     return d
 
 
-TECHNIQUE = ("Coq proof over a Gallina model of bayes.go on the meaning of the parsed files (candidate set, substitution, "
-             "printing via the C08 result format = render(meaning, gaps)), for every choice function; byte-exact "
-             "correspondence with the binary given its own choices; the executable specification infer_ok_b evaluated "
-             "on the Go parser's tree of the binary's output; repeated runs for nondeterminism")
-LEVEL_TEXT = ("see Properties/C15.v: for every choice function, only placeholder sides change, replacements are training "
-              "accounts different from the other side, the rest is the format of the target (C15_only_placeholder, "
-              "C15_candidate_valid, C15_rest_is_format, C15_meets_spec for the repaired code); for the code as found the "
-              "statements about missing candidates, both-sided placeholders and parseability are REFUTED by witnesses "
-              "(C15_*_refuted), matching findings/C15-*.md.")
-LEVEL_NOTE = ("Trusted: kernel, extraction, drivers, harness. The winner among candidates is not modelled (floating point); "
-              "determinism is sampled with 10 runs per case. C15_parses rests on C08's round trip, which is proved only for a fragment.")
+TECHNIQUE = ("Coq proof over a Gallina model of the repaired bayes.go (e8bd689) on the meaning of the parsed files: candidate "
+             "set, substitution, printing via the C08 result format = render(meaning, gaps); round trip of the output by C08's "
+             "context lemmas (a candidate is an account text of the training file's parse, so the substituted meaning is "
+             "lexically valid and its rendering parses back to it); the choice (counts, tokenize, scoreCandidate in sorted "
+             "token order, first maximum over the sorted candidates) modelled with abstract float64 operations and proved "
+             "independent of map enumeration and training order; byte-exact correspondence with the binary given its own "
+             "choices; the executable specification infer_ok_b evaluated on the Go parser's tree of the binary's output; "
+             "repeated runs for nondeterminism")
+LEVEL_TEXT = ("see Properties/C15.v (26 theorems, closed under the global context), all about the repaired code (variant Fixed; "
+              "Orig only in *_refuted). For every valid choice function: C15_only_placeholder, C15_candidate_valid, "
+              "C15_candidates_from_training, C15_no_candidate_unchanged, C15_fixed_meets_spec; C15_parses / C15_roundtrip "
+              "(class_ok as in C08; C15_parses_unicode without hypothesis): the output parses, the parse has exactly the "
+              "inferred meaning (infer_ok_b holds of it) and the target's gaps and is in formatted form; C15_total (no "
+              "failure on files that parse); C15_rest_is_format at full strength (output and `format` of the target parse "
+              "to the same gaps and to meanings related by directive_rel, both are render of meaning and gaps, both are "
+              "fixed points of format); C15_idempotent (a second run with the same training file prints the same text, "
+              "unconditionally). The choice, modelled after the Go code (Model/BayesScore.v): C15_choice_valid, "
+              "C15_choice_first_max + C15_first_max_unique (first maximum of the sorted candidates: the tie-break), "
+              "C15_choice_invariant (a function of the multiset of training events, the set of tokens and the set of map "
+              "keys: independent of Go's map order), C15_training_order_irrelevant, C15_scored_is_infer_with, "
+              "C15_infer_correct (the whole property for the command with its real choice). Code before e8bd689: "
+              "C15_no_candidate_unchanged_refuted, C15_parses_refuted, C15_differs_refuted (findings/C15-infer.md, F10).")
+LEVEL_NOTE = ("Trusted: kernel, extraction, drivers, harness. The float64 operations (math.Log, +, >) and strings.Fields / "
+              "strings.ToLower are abstract in the model of the choice: the theorems hold for any such functions. WHICH "
+              "candidate wins is compared with the binary on every generated case by running the extracted model with IEEE "
+              "doubles and a transcription of Go's amd64 math.Log (trusted, not proved; verdict choice-differs-from-model); "
+              "for the byte comparison the binary's choices are handed to the model. That the Go runtime computes the same "
+              "float64 values on every run is sampled with 10 runs per case. Includes in the training file are not modelled.")
